@@ -48,6 +48,10 @@ CLAIMED["C14"] = dict(technique="rapid-generated programs x configurations (scan
 CLAIMED["C06"] = dict(technique="differential testing across the three real drivers and across root sets, metamorphic locality relation, and gob round trip of rapid-generated fact values",
     text="Generated multi-package programs (with long and unusual annotation values) are analysed in-process sequentially, in-process in parallel with the driver's fact SanityCheck, by the standalone binary and by go vet -vettool with facts on disk - all four diagnostic sets must be equal; every package analysed alone must get the diagnostics it gets in the full run; editing annotations of a package that p does not directly import must not change p's diagnostics; rapid-generated PackageAnnotations values must survive gob through all six fact types.",
     note="external drivers are budgeted (quick: 24 programs, thorough: 3000); in-process relations run on every program; vet and binary are compared on the packages both analyse (sets normalised per file)", ref="DESIGN.md section 3, C06")
+
+CLAIMED["C11"] = dict(technique="differential testing of the real binary across sampled schedules (byte comparison of per-package JSON, report order included) on rapid-generated 4-8 package programs, plus a -race build of the driver and in-process parallel-vs-sequential comparison",
+    text="Each generated program is analysed by the standalone binary under 8 schedules (repeat, -debug=p, GOMAXPROCS 1/2/16, permuted package arguments, subset of roots); the per-package JSON must be byte-identical to the default run. A share of the programs also runs under a race-instrumented build (DATA RACE = violation) and every program is analysed in-process in parallel twice and compared with the sequential result.",
+    note="schedules are sampled, not enumerated: an interleaving-specific logic bug without a data race and without an effect under the sampled schedules can escape (stated in DESIGN.md section 6)", ref="DESIGN.md section 3, C11")
 ALL = ["C%02d" % i for i in range(1, 20)]
 NA_REASON = {}
 def main():
